@@ -142,10 +142,13 @@ def _extra_cases(tier):
         yield Case("polar:ri=%g:nr=%d:nf=%d" % (ri, nr, nf), {"kind": "polar", "ri": ri, "nr": nr, "nf": nf, "edge": False}, True)
     for ri, nr, nf in ((0.2, 70, 3), (0.3, 65, 6)) if tier == "quick" else ((0.2, 70, 3), (0.3, 65, 6), (0.1, 96, 10), (0.5, 130, 4)):
         yield Case("polar:ri=%g:nr=%d:nf=%d" % (ri, nr, nf), {"kind": "polar", "ri": ri, "nr": nr, "nf": nf, "edge": False}, True)
-    for dim, ri, nr, nm in ((16, 0.2, 16, 70), (17, 0.3, 24, 100)) if tier == "quick" else ((16, 0.2, 16, 70), (17, 0.3, 24, 100), (32, 0.1, 40, 150)):
+    for dim, ri, nr, nm in ((16, 0.2, 16, 70), (17, 0.3, 24, 100), (32, 0.3, 32, 250), (24, 0.2, 40, 300), (20, 0.14, 40, 280)) if tier == "quick" else \
+            ((16, 0.2, 16, 70), (17, 0.3, 24, 100), (32, 0.1, 40, 150), (32, 0.3, 32, 250), (24, 0.2, 40, 300), (20, 0.14, 40, 280), (33, 0.2, 40, 600)):
         for mask in (1, 0):
             yield Case("cart:dim=%d:mask=%d:ri=%g:nr=%d:nmax=%d" % (dim, mask, ri, nr, nm),
                        {"kind": "cart", "dim": dim, "mask": bool(mask), "ri": ri, "nr": nr, "nmax": nm}, True)
+    for ri, nr, nf, dim in ((0.2, 8, 6, 16), (0.3, 12, 10, 17)):
+        yield Case("ownership:ri=%g:nr=%d:nf=%d" % (ri, nr, nf), {"kind": "ownership", "ri": ri, "nr": nr, "nf": nf, "dim": dim}, True)
     for flag in ("numpy_bool", "int_one"):
         yield Case("cart:dim=16:mask=%s:ri=0.3:nr=16:nmax=10" % flag,
                    {"kind": "cart", "dim": 16, "mask": flag, "ri": 0.3, "nr": 16, "nmax": 10}, True)
@@ -217,9 +220,49 @@ def evaluate(p):
             return _constr_case(o, p["nr"], p["ris"])
         if _skip_unconstructible(o, p["ri"], p["nr"]):
             return o
+        if p["kind"] == "ownership":
+            return _ownership(o, p["ri"], p["nr"], p["nf"], p["dim"])
         if p["kind"] == "polar":
             return _polar(o, p["ri"], p["nr"], p["nf"], p["edge"])
         return _cart(o, p["dim"], p["mask"], p["ri"], p["nr"], p["nmax"])
+
+
+# ------------------------------------------------------------------------------ results belong to the caller
+
+def _snapshot(r):
+    from mc.variants import _result_arrays
+    return [a.copy() for a in _result_arrays(r)]
+
+
+def _ownership(o, ri, nr, nf, dim):
+    """whatever the library returns belongs to the caller: rescaling the returned variances or modes in place
+    (varKL *= (D/r0)**(5/3) is the first thing a user does) and calling again gives the original values; a result
+    still held is not touched by later calls with other parameters"""
+    from mc.variants import _result_arrays
+    m = _klmod()
+    calls = {"gkl_basis": lambda: m.gkl_basis(ri, nr, None, nf), "make_kl": lambda: m.make_kl(nf, dim, ri=ri, nr=nr),
+             "make_kl:nomask": lambda: m.make_kl(nf, dim, ri=ri, nr=nr, mask=False),
+             "gkl_kernel": lambda: m.gkl_kernel(ri, nr, m.gkl_radii(ri, nr)), "gkl_radii": lambda: m.gkl_radii(ri, nr)}
+    for name, f in calls.items():
+        r1 = f()
+        first = _snapshot(r1)
+        r2 = f()
+        same2 = all(numpy.array_equal(a, b, equal_nan=True) for a, b in zip(_snapshot(r2), first))
+        o.check("repeated_call_equal_result", same2 and len(_snapshot(r2)) == len(first), sub=name)
+        for a in _result_arrays(r1):
+            if a.flags.writeable and a.size:
+                if a.dtype.kind in "fc":
+                    a *= 755.0
+                else:
+                    a[...] = 7
+        o.check("held_result_not_overwritten_by_next_call", all(numpy.array_equal(a, b, equal_nan=True) for a, b in zip(_snapshot(r2), first)), sub=name)
+        r3 = f()
+        s3 = _snapshot(r3)
+        ok = len(s3) == len(first) and all(numpy.array_equal(a, b, equal_nan=True) for a, b in zip(s3, first))
+        o.check("result_owned_by_caller", ok, sub=name,
+                detail=None if ok else "after the caller rescaled the first result in place, the same call returns other values")
+        o.stat("lib_calls", 3)
+    return o
 
 
 # ------------------------------------------------------------------------------ polar clauses
